@@ -2,7 +2,7 @@
    Model: PyrollLib.UnitTree (Unit._SubUnitsList + PassSequence edits), tied to the code by the
    correspondence run of this check.  Inv (UnitFacts.v): every listed unit names the listing sequence as
    its parent; every unit naming a parent is listed there; no unit is listed twice. *)
-From PyrollLib Require Import UnitTree UnitFacts.
+From PyrollLib Require Import UnitTree UnitFacts UnitFlatten.
 
 Theorem C13_every_edit_preserves_consistency : forall s o,
   Inv s -> admissible s o -> covered o -> Inv (fst (step s o)).
@@ -31,12 +31,21 @@ Theorem C13_removed_unit_names_no_parent : forall s u,
 Proof. exact detached_has_no_parent. Qed.
 Print Assumptions C13_removed_unit_names_no_parent.
 
-(* Flatten is not yet covered by the general theorem (C13_flatten_partial): its consistency is checked on
-   this instance by computation and on random histories by the correspondence run and the oracle. *)
+(* PassSequence.flatten (walk over a snapshot, inner sequences dissolved on the spot, list rebuilt) preserves consistency for every
+   sequence that does not list itself; with it, every admissible history keeps every reachable state consistent *)
+Theorem C13_flatten_preserves_consistency : forall s q, Inv s -> ~ In q (kids_of s q) -> Inv (fst (step s (Flatten q))).
+Proof. exact flatten_inv. Qed.
+Print Assumptions C13_flatten_preserves_consistency.
+
+Theorem C13_every_history_with_flatten : forall ops s, Inv s -> ok_run_all s ops -> Inv (fst (run s ops)).
+Proof. exact run_inv_all. Qed.
+Print Assumptions C13_every_history_with_flatten.
+
+(* an instance by computation: what flatten produces *)
 Definition flat_demo : list op :=
   [NewUnit 1 KPass 1; NewUnit 2 KTransport 2; NewUnit 3 KPass 3; NewUnit 4 KOther 4;
    Construct 10 [1; 2] 10; Construct 11 [10; 3; 4] 11; Flatten 11].
-Example C13_flatten_partial :
+Example C13_flatten_instance :
   let s := fst (run init flat_demo) in
   kids_of s 11 = [1; 2; 3; 4] /\ kids_of s 10 = [] /\ par_of s 10 = None /\
   par_of s 1 = Some 11 /\ par_of s 2 = Some 11 /\ prev_of s 3 = NUnit 2.
